@@ -229,6 +229,125 @@ int main(void) {
 '''
 
 
+SIGNS_FBS = """namespace NZ;
+struct P { x:float; y:double; }
+enum E:byte { Neg = -12, Zero = 0, Pos = 5 }
+enum L:long { Min = -9223372036854775808, M1 = -1, Z = 0, Max = 9223372036854775807 }
+table T { d:double = 1; f:float = 2; od:double = null; vd:[double]; vf:[float]; p:P; ps:[P]; z:double; zf:float; e:E = Zero; l:L = Z; es:[E]; ls:[L]; }
+root_type T;
+"""
+
+SIGNS_C = r'''
+#include <stdio.h>
+#include <stdlib.h>
+#include <string.h>
+#include <float.h>
+#include "nz_builder.h"
+#include "nz_verifier.h"
+#include "nz_json_parser.h"
+#include "nz_json_printer.h"
+static char *print(const void *buf, size_t size, int pf, size_t *n, int *err) {
+    flatcc_json_printer_t pc; char *t;
+    flatcc_json_printer_init_dynamic_buffer(&pc, 0); flatcc_json_printer_set_flags(&pc, (flatcc_json_printer_flags_t)pf);
+    NZ_T_print_json_as_root(&pc, buf, size, 0); *err = flatcc_json_printer_get_error(&pc);
+    t = flatcc_json_printer_finalize_dynamic_buffer(&pc, n); flatcc_json_printer_clear(&pc); return t;
+}
+static uint64_t db(double x) { uint64_t u; memcpy(&u, &x, 8); return u; }
+static uint32_t fb(float x) { uint32_t u; memcpy(&u, &x, 4); return u; }
+int main(void) {
+    static const double V[] = { -0.0, 0.0, 4.9406564584124654e-324, -4.9406564584124654e-324, DBL_MAX, -DBL_MIN, 1.0 / 3.0, -1.5, 1e23, 2.0 };
+    static const float F[] = { -0.0f, 0.0f, 1.401298464324817e-45f, -1.401298464324817e-45f, FLT_MAX, -FLT_MIN, 0.1f, -1.5f, 16777216.0f, 1.0f };
+    flatcc_builder_t b, *B = &b; int k, pf, i;
+    flatcc_builder_init(B);
+    for (k = 0; k < 10; ++k) {
+        double v = V[k], vd[4]; float f = F[k], vf[4]; NZ_P_t ps[2]; void *buf; size_t size;
+        vd[0] = v; vd[1] = -v; vd[2] = -0.0; vd[3] = 0.0; vf[0] = f; vf[1] = -f; vf[2] = -0.0f; vf[3] = 0.0f;
+        ps[0].x = f; ps[0].y = -v; ps[1].x = -0.0f; ps[1].y = -0.0;
+        flatcc_builder_reset(B);
+        NZ_T_start_as_root(B);
+        NZ_T_d_add(B, v); NZ_T_f_add(B, f); NZ_T_od_add(B, v);
+        NZ_T_vd_create(B, vd, 4); NZ_T_vf_create(B, vf, 4);
+        NZ_T_p_create(B, -f, v); NZ_T_ps_create(B, ps, 2);
+        NZ_T_z_force_add(B, v); NZ_T_zf_force_add(B, f);
+        { static const NZ_E_enum_t es[3] = { NZ_E_Neg, NZ_E_Pos, NZ_E_Zero }; static const NZ_L_enum_t ls[4] = { NZ_L_Min, NZ_L_M1, NZ_L_Max, NZ_L_Z };
+          NZ_T_e_force_add(B, es[k % 3]); NZ_T_l_force_add(B, ls[k % 4]); NZ_T_es_create(B, es, 3); NZ_T_ls_create(B, ls, 4); }
+        NZ_T_end_as_root(B);
+        buf = flatcc_builder_finalize_aligned_buffer(B, &size);
+        for (pf = 0; pf < 4; ++pf) {
+            size_t n = 0, n2 = 0, size2 = 0, q; int e1 = 0, e2 = 0, rc; char *t = print(buf, size, pf, &n, &e1), *t2 = 0; void *buf2 = 0;
+            flatcc_json_parser_t jc; char why[200]; strcpy(why, "ok");
+            printf("k=%d pf=%d ", k, pf);
+            if (!t || e1) strcpy(why, "printer-error");
+            else {
+                flatcc_builder_reset(B); memset(&jc, 0, sizeof jc);
+                rc = NZ_T_parse_json_as_root(B, &jc, t, n, flatcc_json_parser_f_force_add, 0);
+                if (rc) strcpy(why, "parser-rejects-printer-output");
+                else if (!(buf2 = flatcc_builder_finalize_aligned_buffer(B, &size2))) strcpy(why, "finalize-failed");
+                else if (NZ_T_verify_as_root(buf2, size2)) strcpy(why, "reparsed-buffer-fails-verification");
+                else {
+                    NZ_T_table_t r = NZ_T_as_root(buf2); NZ_P_struct_t p = NZ_T_p(r);
+                    if (db(NZ_T_d(r)) != db(v)) sprintf(why, "d:%llx->%llx", (unsigned long long)db(v), (unsigned long long)db(NZ_T_d(r)));
+                    else if (fb(NZ_T_f(r)) != fb(f)) sprintf(why, "f:%x->%x", fb(f), fb(NZ_T_f(r)));
+                    else if (!NZ_T_od_is_present(r) || db(NZ_T_od(r)) != db(v)) sprintf(why, "od:%llx->%llx", (unsigned long long)db(v), (unsigned long long)db(NZ_T_od(r)));
+                    else if (db(NZ_T_z(r)) != db(v) || fb(NZ_T_zf(r)) != fb(f)) sprintf(why, "z:%llx->%llx,zf:%x->%x", (unsigned long long)db(v), (unsigned long long)db(NZ_T_z(r)), fb(f), fb(NZ_T_zf(r)));
+                    else if (!p || fb(NZ_P_x(p)) != fb(-f) || db(NZ_P_y(p)) != db(v)) strcpy(why, "struct-member-differs");
+                    else if (NZ_T_e(r) != NZ_T_e(NZ_T_as_root(buf)) || NZ_T_l(r) != NZ_T_l(NZ_T_as_root(buf))) sprintf(why, "enum-field-differs:e=%d,l=%lld", (int)NZ_T_e(r), (long long)NZ_T_l(r));
+                    else if (NZ_E_vec_len(NZ_T_es(r)) != 3 || NZ_E_vec_at(NZ_T_es(r), 0) != NZ_E_Neg || NZ_E_vec_at(NZ_T_es(r), 1) != NZ_E_Pos || NZ_L_vec_len(NZ_T_ls(r)) != 4
+                             || NZ_L_vec_at(NZ_T_ls(r), 0) != NZ_L_Min || NZ_L_vec_at(NZ_T_ls(r), 1) != NZ_L_M1 || NZ_L_vec_at(NZ_T_ls(r), 2) != NZ_L_Max) strcpy(why, "enum-vector-differs");
+                    else if (flatbuffers_double_vec_len(NZ_T_vd(r)) != 4 || flatbuffers_float_vec_len(NZ_T_vf(r)) != 4 || NZ_P_vec_len(NZ_T_ps(r)) != 2) strcpy(why, "vector-length-differs");
+                    else {
+                        for (i = 0; i < 4; ++i) {
+                            if (db(flatbuffers_double_vec_at(NZ_T_vd(r), (size_t)i)) != db(vd[i])) sprintf(why, "vd[%d]:%llx->%llx", i, (unsigned long long)db(vd[i]), (unsigned long long)db(flatbuffers_double_vec_at(NZ_T_vd(r), (size_t)i)));
+                            if (fb(flatbuffers_float_vec_at(NZ_T_vf(r), (size_t)i)) != fb(vf[i])) sprintf(why, "vf[%d]:%x->%x", i, fb(vf[i]), fb(flatbuffers_float_vec_at(NZ_T_vf(r), (size_t)i)));
+                        }
+                        for (i = 0; i < 2; ++i) {
+                            NZ_P_struct_t e = NZ_P_vec_at(NZ_T_ps(r), (size_t)i);
+                            if (fb(NZ_P_x(e)) != fb(ps[i].x) || db(NZ_P_y(e)) != db(ps[i].y)) sprintf(why, "ps[%d]-differs", i);
+                        }
+                        if (!strcmp(why, "ok")) { t2 = print(buf2, size2, pf, &n2, &e2); if (!t2 || e2 || n2 != n || memcmp(t, t2, n)) strcpy(why, "reprint-differs"); }
+                    }
+                }
+            }
+            printf("%s text=", why);
+            for (q = 0; t && q < n; ++q) printf("%02x", (unsigned char)t[q]);
+            printf("\n");
+            free(t); free(t2); if (buf2) flatcc_builder_aligned_free(buf2);
+        }
+        flatcc_builder_aligned_free(buf);
+    }
+    flatcc_builder_clear(B);
+    return 0;
+}
+'''
+
+
+def signs_stage(ctx, flatcc, rt):
+    """negative enum members (printed by name) and signed zeros, smallest denormals and the largest values of float and double in every place where they are physically stored (fields with a
+    non-zero default, optional fields, force_add, vector elements, struct members, struct vector elements): print -> parse -> verify -> the same
+    bits -> the same text, under the printer flag sets {strict, unquote, noenum, both}"""
+    d = os.path.join(ctx.work, "signs"); os.makedirs(d, exist_ok=True)
+    open(os.path.join(d, "nz.fbs"), "w").write(SIGNS_FBS)
+    open(os.path.join(d, "prog.c"), "w").write(SIGNS_C)
+    rc, out, err = sh([flatcc, "-a", "--json", "-o", d, os.path.join(d, "nz.fbs")])
+    if rc != 0:
+        return {}, [("flatcc rejects the signed-zero schema: " + (out + err)[-400:], dict(schema_fbs=SIGNS_FBS))]
+    try:
+        exe = build_harness(ctx, "signs_prog", [os.path.join(d, "prog.c")], rt, incs=[d], flags=["-O1", "-g", "-w", "-fsanitize=address", "-fno-omit-frame-pointer"])
+    except BuildError as e:
+        return {}, [("generated code for the signed-zero schema does not compile: " + str(e)[-800:], dict(schema_fbs=SIGNS_FBS))]
+    rc, out, err = sh([exe], timeout=120, env=ASAN_ENV)
+    lines = [l for l in out.split("\n") if l.startswith("k=")]
+    bad = []
+    if rc != 0 or len(lines) != 40: bad.append(("signed-zero scenario crashed / incomplete (%d of 40 lines): %s" % (len(lines), err[-600:]), dict(schema_fbs=SIGNS_FBS)))
+    for l in lines:
+        t = l.split(" ")
+        if t[2] != "ok":
+            text = bytes.fromhex(t[3][5:][:len(t[3][5:]) // 2 * 2]).decode("latin1") if len(t) > 3 else ""
+            bad.append(("float / double round trip (value set %s, printer flags %s): a stored value does not come back bit for bit: %s" % (t[0][2:], t[1][3:], t[2]),
+                        dict(schema_fbs=SIGNS_FBS, text=text[:600], line=l[:200])))
+    return {"signed_zero_round_trips": len(lines)}, bad
+
+
 def flags_stage(ctx, flatcc, rt):
     """bit_flags enums of every width (flags at both ends of the type, on both sides of bit 31): every subset of the declared flags, with and without
     an undeclared bit, as scalar fields and in a vector, under the printer flag sets {strict, unquote, noenum, both}: print -> parse -> verify ->
@@ -281,6 +400,9 @@ def run(ctx, mutate=None, judge_extra=None):
     fstats, fbad = flags_stage(ctx, flatcc, rt)
     bad += fbad
     b64cov.update(fstats)
+    sstats, sbad = signs_stage(ctx, flatcc, rt)
+    bad += sbad
+    b64cov.update(sstats)
     nlines = sum(len(r.get("lines", [])) for r in results)
     if bad_schema:
         b = bad_schema[0]
